@@ -141,13 +141,14 @@ U("c10_citation_call_id", ["C10", "C08"], "h_citation_call", ["C10/citation_call
            "d_string_append_printf": "stub parsing the format: anchor / id / %s arguments", "every other callee": "body removed, nondet return value"},
   min_obligations=5, timeout=300, cost=15, assumptions=[NOFAIL, "configuration -DI18N_DISABLED", "memory safety of the arm is not claimed by this unit (standard checks off: callees are havocked)"])
 
-# ---- the footnote call site: id="fnref:N" iff first use
-U("c10_footnote_call_id", ["C10"], "h_footnote_call", ["C10/footnote_call.c"], ["html.c"], plain=True, lib=("lib/libc_models.c",), kind="finite",
-  defines=["-DI18N_DISABLED=1"], drop_bodies=["mmd_print_string_html", "mmd_export_token_tree_html"],
-  pre_instrument=["--remove-function-body-regex", "^(?!mmd_export_token_html$|mmd_print_string_html$|mmd_export_token_tree_html$|footnote_from_bracket$|d_string_append.*$|has$|h_footnote_call$|mk$|verif_.*$|__CPROVER.*$).*",
-                  "--generate-function-body", "^(?!__CPROVER_|malloc$|free$|verif_).*$", "--generate-function-body-options", "nondet-return"],
-  cbmc_flags=["--object-bits", "12", "--unwind", "102", "--unwinding-assertions"], checks=["--no-standard-checks"],
-  bounds={"token": "PAIR_BRACKET_FOOTNOTE", "note number": "-1 or 1..999", "first use / re-use": "both", "extensions": "EXT_NOTES, not EXT_RANDOM_FOOT"},
-  functions=["mmd_export_token_html (arm PAIR_BRACKET_FOOTNOTE)"],
-  callees={"footnote_from_bracket": "contract stub: answers N (or -1) and pushes on used_footnotes on a first use", "d_string_append_printf": "stub parsing the format: anchor / id / numbers", "every other callee": "body removed, nondet return value"},
-  min_obligations=4, timeout=300, cost=15, assumptions=[NOFAIL, "configuration -DI18N_DISABLED", "memory safety of the arm is not claimed by this unit (standard checks off: callees are havocked)"])
+# ---- the footnote / glossary call sites: id="fnref:N" / "gnref:N" iff first use
+for _k, _d, _fb, _tok in (("footnote", [], "footnote_from_bracket", "PAIR_BRACKET_FOOTNOTE"), ("glossary", ["-DKIND_GLOSSARY"], "glossary_from_bracket", "PAIR_BRACKET_GLOSSARY")):
+    U("c10_%s_call_id" % _k, ["C10"], "h_footnote_call", ["C10/footnote_call.c"], ["html.c"], plain=True, lib=("lib/libc_models.c",), kind="finite",
+      defines=["-DI18N_DISABLED=1"] + _d, drop_bodies=["mmd_print_string_html", "mmd_export_token_tree_html"],
+      pre_instrument=["--remove-function-body-regex", "^(?!mmd_export_token_html$|mmd_print_string_html$|mmd_export_token_tree_html$|%s$|stack_peek_index$|d_string_append.*$|has$|h_footnote_call$|mk$|verif_.*$|__CPROVER.*$).*" % _fb,
+                      "--generate-function-body", "^(?!__CPROVER_|malloc$|free$|verif_).*$", "--generate-function-body-options", "nondet-return"],
+      cbmc_flags=["--object-bits", "12", "--unwind", "102", "--unwinding-assertions"], checks=["--no-standard-checks"],
+      bounds={"token": _tok, "note number": "-1 or 1..999", "first use / re-use": "both", "extensions": "EXT_NOTES, not EXT_RANDOM_FOOT"},
+      functions=["mmd_export_token_html (arm %s)" % _tok],
+      callees={_fb: "contract stub: answers N (or -1) and pushes on the used-notes stack on a first use", "d_string_append_printf": "stub parsing the format: anchor / id / numbers", "stack_peek_index": "stub", "every other callee": "body removed, nondet return value"},
+      min_obligations=4, timeout=300, cost=15, assumptions=[NOFAIL, "configuration -DI18N_DISABLED", "memory safety of the arm is not claimed by this unit (standard checks off: callees are havocked)"])
